@@ -143,6 +143,11 @@ def disagreement_is_failing_input(pid, broken):
         # on a concrete history is the failing input
         if pid == "C15" and kind == "correspondence" and re.search(r"op:\s+CALLS ", msg):
             return True
+        # C06: the model's reads are proved equal to the specification (C06_get_visibility, C06_key_values,
+        # C06_iter_prefix_exact); the implementation's answer to a read differing from them on a concrete
+        # history of local writes is the failing input
+        if pid == "C06" and kind == "correspondence" and re.search(r"op:\s+READ ", msg):
+            return True
         # C19: the observables compared by the loop/udp suites (answered, running, heartbeating,
         # shutdown report) are exactly what the property talks about; the loop model is proved to
         # satisfy it, so the implementation's loop deviating on a concrete event script is the input
